@@ -262,6 +262,64 @@ def rule_full_span(ctx):
     return r
 
 
+def rule_centre_shift(ctx):
+    r = RuleResult(
+        "centre-shift",
+        "TensorNetwork1DFlat.compress: on every path, the call that finally moves the orthogonality centre to the requested "
+        "site (left_canonize(stop=x) moves it rightwards from the left end, right_canonize(stop=x) leftwards from the right "
+        "end) goes in the direction away from the end at which the preceding truncating sweep stopped (right_compress stops "
+        "at the left end, left_compress at the right end): a shift in the other direction is a no-op and leaves the centre, "
+        "and all tensors beyond `x`, in the wrong gauge",
+    )
+    f = ctx.prog.func("quimb.tensor.tn1d.core", "TensorNetwork1DFlat.compress")
+    where = f"{f.module.relpath}:{f.lineno}"
+
+    def paths(stmts):
+        seqs = [[]]
+        for st in stmts:
+            if isinstance(st, ast.If):
+                subs = paths(st.body) + (paths(st.orelse) if st.orelse else [[]])
+                seqs = [a + b for a in seqs for b in subs]
+            else:
+                seqs = [a + [st] for a in seqs]
+            if len(seqs) > 64:
+                seqs = seqs[:64]
+        return seqs
+
+    END_AFTER = {"right_compress": "left", "left_compress": "right"}
+    MOVES_FROM = {"left_canonize": "left", "right_canonize": "right"}
+    n = 0
+    seen = set()
+    for seq in paths(f.node.body):
+        calls = []
+        for st in seq:
+            for c in ast.walk(st):
+                if isinstance(c, ast.Call) and isinstance(c.func, ast.Attribute) and isinstance(c.func.value, ast.Name) and c.func.value.id == "self":
+                    calls.append(c)
+        calls.sort(key=lambda c: (c.lineno, c.col_offset))
+        end = None
+        for c in calls:
+            name = c.func.attr
+            if name in END_AFTER and any(k.arg is None for k in c.keywords) and not any(k.arg in ("start", "stop") for k in c.keywords):
+                end = (END_AFTER[name], c)
+            elif name in MOVES_FROM and any(k.arg == "stop" for k in c.keywords) and end is not None:
+                key = (end[1].lineno, c.lineno)
+                if key in seen:
+                    continue
+                seen.add(key)
+                n += 1
+                label = f"{end[1].func.attr} -> {name}(stop={src_of(next(k.value for k in c.keywords if k.arg == 'stop'))})"
+                if MOVES_FROM[name] == end[0]:
+                    r.ok(f"compress[{label}]", sample={"path": label, "centre after sweep": f"{end[0]} end", "shift starts from": f"{MOVES_FROM[name]} end"})
+                else:
+                    r.bad(Finding("centre-shift", "TensorNetwork1DFlat.compress",
+                                  f"after {end[1].func.attr} the centre is at the {end[0]} end, but {name}(stop=...) (line {c.lineno}) shifts from the {MOVES_FROM[name]} end: "
+                                  "it does nothing, and the promised canonical form is not reached", where=f"{f.module.relpath}:{c.lineno}", operand=label))
+                end = None
+    r.floor(n, 2, "sweep-then-shift sequences")
+    return r
+
+
 # --------------------------------------------------------- dense-linop-agree
 def rule_dense_linop_agree(ctx):
     r = RuleResult(
